@@ -26,6 +26,7 @@ TU = "scriptplan/_cython/time_utils_cy.pyx"
 MP = "scriptplan/parser/macro_processor.py"
 
 MUTANTS = [
+    ("c20_output_dir_env_first", "C20", [(MN, "        output_dir = self.args.output_dir or \"./\"", "        output_dir = os.environ.get(\"PLAN_OUTPUT_DIR\", self.args.output_dir or \"./\")")]),
     # ------------------------------------------------------------------ revert of repaired defect F69 (C12)
     ("c12_scenarios_scheduled_again", "C12", [(PJ, "            if scIdx in self._scheduledScenarios:\n                continue\n            self._scheduledScenarios.add(scIdx)\n", "")]),
     # ------------------------------------------------------------------ reverts of repaired defects F66, F67, F68 (C19)
@@ -284,6 +285,7 @@ UNDECIDED = [
 
 # behaviour-preserving edits: the checks named must stay silent
 BENIGN = [
+    ("b_output_dir_env_as_fallback", ["C20", "C19"], [(MN, "        output_dir = self.args.output_dir or \"./\"", "        output_dir = self.args.output_dir or os.environ.get(\"PLAN_OUTPUT_DIR\") or \"./\"")]),
     # ------------------------------------------------------------------ former mutants that later repairs made behaviour-preserving
     ("b_ledger_emptied_when_slot_table_is_built", ["C01", "C12"], [(RS, "        self.scoreboard = Scoreboard(start, end, granularity, 2)\n        size = self.project.scoreboardSize()\n", "        self.scoreboard = Scoreboard(start, end, granularity, 2)\n        size = self.project.scoreboardSize()\n        self.slotSecondsUsed = {}\n        self.slotTaskUsage = {}\n")]),
     ("b_available_relies_on_slot_table_markers", ["C02", "C08"], [(RS, "        if not self.onShift(sb_idx):\n            return False\n\n        # Check if slot has any available time",
